@@ -91,7 +91,7 @@ func TestVerifC20Inputs(t *testing.T) {
 	stt.Check(t, vs.CheckOpts{Bubble: true}, func(c *vs.Case) {
 		n := c.Src.Int("ha_hosts", 2, 3)
 		ha := []string{"h1", "h2", "h3"}[:n]
-		o := simOpts{HA: ha, LogLevel: simLogLevel(), Cfg: map[string]string{"failover_cooldown": "0s", "manager_switchover": fmt.Sprint(c.Src.Bool("manager_switchover")), "resetup_host_lag": c.Src.Pick("resetup_host_lag", "25h", "30s")}}
+		o := simOpts{HA: ha, LogLevel: simLogLevel(), Cfg: map[string]string{"failover_cooldown": "0s", "manager_switchover": fmt.Sprint(c.Src.Bool("manager_switchover")), "resetup_host_lag": "30s"}}
 		if c.Src.Bool("cascade") {
 			o.Cascade = map[string]string{"c1": ha[n-1]}
 		}
